@@ -99,11 +99,26 @@ impl RequestHandler<Rename> for RenameHandler {
             None => return Ok(None),
         };
         let mut codegen = codegen.lock().unwrap();
-        let mut defs = ctx.find_definitions(codegen.analysis(), &params.text_document_position);
+        let defs = ctx.find_definitions(codegen.analysis(), &params.text_document_position);
         if defs.is_empty() {
             return Ok(None);
         }
-        let (def_ty, def) = defs.remove(0);
+        // The position may be inside a usage of one symbol and inside the location where another symbol is defined (the
+        // 'index' of a loop is defined at the loop's expression): what is being used there is what should be renamed.
+        let (def_ty, def) = {
+            let tree = codegen.tree();
+            let path = params
+                .text_document_position
+                .text_document
+                .uri
+                .to_file_path()
+                .unwrap();
+            let pos = crate::lsp::to_line_col(&params.text_document_position.position);
+            *defs
+                .iter()
+                .find(|(_, def)| def.try_get_usage_containing(tree, &path, pos).is_some())
+                .unwrap_or(&defs[0])
+        };
         let (def_ty, def) = (def_ty.clone(), def.clone());
         match def_ty {
             DefinitionType::Filename(_) => Ok(None),
@@ -180,6 +195,15 @@ impl RequestHandler<Rename> for RenameHandler {
                                 new_text,
                             };
                             (loc.uri, edit)
+                        })
+                        // The same location may be used from several scopes (a macro that is invoked more than once, a
+                        // loop), which should still result in a single edit
+                        .unique_by(|(uri, edit)| {
+                            let r = edit.range;
+                            (
+                                uri.clone(),
+                                (r.start.line, r.start.character, r.end.line, r.end.character),
+                            )
                         })
                         .into_group_map();
                     return Ok(Some(WorkspaceEdit {
